@@ -32,7 +32,9 @@ class BayesianEstimator(ParameterEstimator):
                 )
 
             if isinstance(model, DAG):
+                nodes = list(model.nodes())
                 model = BayesianNetwork(model.edges())
+                model.add_nodes_from(nodes)
 
         super(BayesianEstimator, self).__init__(model, data, **kwargs)
 
